@@ -154,7 +154,7 @@ func checkSerialised(res RunResult) string {
 }
 
 func checkBody(b *OVal, where string) string {
-	if b == nil {
+	if b == nil || b.Kind != OObj {
 		return where + " has no body"
 	}
 	nt := b.Path("schema", "notation").Str()
@@ -214,12 +214,46 @@ func collisionDoc(r *Rng) []byte {
 	return []byte(b.String())
 }
 
+// bodylessDoc: methods with several responses (and a request) where one of them — at any position — has no body
+// (bare code, code with Headers only, Request with Headers only): every request and response must have a body
+func bodylessDoc(r *Rng) []byte {
+	var b strings.Builder
+	b.WriteString("JSIGHT 0.3\n")
+	verbs := []string{"GET", "POST", "PUT"}
+	for m := 0; m < 1+r.Intn(2); m++ {
+		b.WriteString(fmt.Sprintf("%s /p%d\n", verbs[r.Intn(3)], m))
+		if r.Chance(1, 3) {
+			if r.Chance(1, 3) {
+				b.WriteString("  Request\n    Headers\n    {\"h\": 1}\n")
+			} else {
+				b.WriteString("  Request any\n")
+			}
+		}
+		n := 1 + r.Intn(4)
+		hole := r.Intn(n + 1) // == n: every response has a body
+		for k := 0; k < n; k++ {
+			code := 200 + k
+			switch {
+			case k == hole && r.Bool():
+				b.WriteString(fmt.Sprintf("  %d\n", code))
+			case k == hole:
+				b.WriteString(fmt.Sprintf("  %d\n    Headers\n    {\"h\": 1}\n", code))
+			case r.Bool():
+				b.WriteString(fmt.Sprintf("  %d any\n", code))
+			default:
+				b.WriteString(fmt.Sprintf("  %d\n    Headers\n    {\"h\": 1}\n    Body\n    {\"a\": 1}\n", code))
+			}
+		}
+	}
+	return []byte(b.String())
+}
+
 func runC09(ctx *Ctx) {
 	r := ctx.Rng.Fork()
 	buildCorrSuite(ctx, r.Fork(), ctx.Budget(300, 30000))
 	var docs [][]byte
 	for i := 0; i < ctx.Budget(200, 5000); i++ {
-		docs = append(docs, collisionDoc(r))
+		docs = append(docs, collisionDoc(r), bodylessDoc(r))
 	}
 	for i := 0; i < ctx.Budget(800, 60000); i++ {
 		m := GenModel(r)
